@@ -420,6 +420,10 @@ package anthropic
 //@   at call convertMessages 1 assume forall q int :: 0 <= q && q < len(anthropicReq.Messages) ==> (anthropicReq.Messages[q].Role == "user" || anthropicReq.Messages[q].Role == "assistant")
 //@   at return 6 assert len(anthropicReq.StopSequences) > 0 ==> has(openaiReq, "stop") && typeis(openaiReq["stop"], "[]string") && asType(openaiReq["stop"], "[]string") == anthropicReq.StopSequences
 //@   at return 6 assert len(anthropicReq.StopSequences) == 0 ==> !has(openaiReq, "stop")
+// tools and tool choice travel with the request exactly when the client sent tools (same number of definitions)
+//@   at return 6 assert (len(anthropicReq.Tools) > 0) == has(openaiReq, "tools")
+//@   at return 6 assert len(anthropicReq.Tools) > 0 ==> typeis(openaiReq["tools"], "[]map[string]interface{}") && len(asType(openaiReq["tools"], "[]map[string]interface{}")) == len(anthropicReq.Tools)
+//@   at return 6 assert has(openaiReq, "tool_choice") == (len(anthropicReq.Tools) > 0 && anthropicReq.ToolChoice != nil)
 //@   at return 6 assert anthropicReq.Temperature != nil ==> has(openaiReq, "temperature") && typeis(openaiReq["temperature"], "float64") && asFloat(openaiReq["temperature"]) == deref(anthropicReq.Temperature)
 //@   at return 6 assert anthropicReq.TopP != nil ==> has(openaiReq, "top_p") && typeis(openaiReq["top_p"], "float64") && asFloat(openaiReq["top_p"]) == deref(anthropicReq.TopP)
 //@   at return 6 assert asInt(openaiReq["max_tokens"]) == anthropicReq.MaxTokens && strOf(openaiReq["model"]) == anthropicReq.Model && asBool(openaiReq["stream"]) == anthropicReq.Stream
